@@ -17,6 +17,7 @@ from .ops import wrap_bool
 from .path import Unsupported
 from .values import FIN, NAN, AnyV, SFloat, Sym, fresh_name
 
+INT_MAX_STR_DIGITS = 4300  # CPython default of sys.get_int_max_str_digits()
 TAGS = ["None", "Bool", "Int", "Float", "Str", "Bytes", "Container", "Object"]
 
 
@@ -147,7 +148,15 @@ class AnyMixin:
         raise Unsupported(f"getattr(AnyV, {attr})")
 
     def any_to_str(self, v: AnyV):
-        """str(x): the string itself for Str, some string otherwise (assumed not to raise)"""
+        """str(x): the string itself for Str, some string otherwise.  CPython (>= 3.11) refuses to convert an int of more than
+        sys.get_int_max_str_digits() (default 4300) decimal digits: ValueError - for the int itself and for a container holding one.
+        str() of Bool/Float/Bytes/None and of a plain object does not raise (A5)."""
+        T = self.any_tags
         if not hasattr(v, "str_repr"):
             v.str_repr = z3.String(fresh_name("str_of"))
-        return Sym(z3.If(v.tag == self.any_tags["Str"], v.s, v.str_repr), "str")
+            v.str_raises = z3.Bool(fresh_name("container_holds_unprintable_int"))
+        lim = z3.IntVal("1" + "0" * INT_MAX_STR_DIGITS)  # 10**4300 as a numeral string (str() of the Python int would itself raise)
+        unprintable = z3.Or(z3.And(v.tag == T["Int"], z3.Or(v.i >= lim, v.i <= -lim)), z3.And(v.tag == T["Container"], v.str_raises))
+        if self.path.branch(unprintable):
+            self.raise_builtin("ValueError")
+        return Sym(z3.If(v.tag == T["Str"], v.s, v.str_repr), "str")
